@@ -150,6 +150,14 @@ func (r *recallWantlist) removeType(c cid.Cid, wtype pb.Message_Wantlist_WantTyp
 // Returns true if the want was marked as sent. Returns false if the want wasn't
 // pending.
 func (r *recallWantlist) markSent(e bswl.Entry) bool {
+	// The entry was read without the lock held. If the want has been cancelled
+	// and added again with another type in the meantime, the pending entry is
+	// no longer the one that was put into the message: RemoveType alone would
+	// still remove a pending want-have when asked for a want-block, and the
+	// stale want-block would be sent and recorded as sent.
+	if cur, ok := r.pending.Get(e.Cid); !ok || cur.WantType != e.WantType {
+		return false
+	}
 	if !r.pending.RemoveType(e.Cid, e.WantType) {
 		return false
 	}
